@@ -255,7 +255,6 @@ def validOperands (c : QCircuit Float) : Bool :=
       (match g.toTerm with | some _ => true | none => false)
     | .measureAll cbits _ | .peekAll cbits _ => cbits.length == c.nq
     | .barrier qs => !qs.isEmpty && qs.eraseDups.length == qs.length
-    | .resetAll => c.nq > 0
     | _ => true
 
 mutual
